@@ -267,6 +267,25 @@ def run_case(c, d):
             c.compare('MultiTapering:psd-is-2x-first-half-of-mean-of-weighted-eigenspectra', psd, 2 * full[:L], 1e-10, f2,
                       scale=float(np.max(full)) or 1.0, detail={'NFFT': nfft})
     c.require('MultiTapering:one-value-per-frequency', len(fr) == len(psd), {'freqs': len(fr), 'psd': len(psd)}, f2)
+    # history: other taper parameters assigned to the evaluated object, followed by an explicit computation
+    if d.get('i', 0) % 2 == 0 and N >= 24:
+        NW2 = 2.0 if NW != 2.0 else 3.0
+        k2 = 3
+        try:
+            p.NW = NW2
+            p.k = k2
+            p()
+            psd2 = np.asarray(p.psd)
+            Sk3, w3, lam3 = spectrum.pmtm(x, NW=NW2, k=k2, NFFT=nfft, method=method)
+        except Exception as exc:
+            c.exception('MultiTapering', exc, dict(f2, step='NW-k-reassigned'))
+            return
+        P3 = np.abs(np.asarray(Sk3)) ** 2
+        w3 = np.asarray(w3, dtype=float)
+        full3 = np.mean(P3.T * w3, axis=1) if method == 'adapt' else np.mean(P3 * w3, axis=0)
+        ref3 = full3 if cplx else 2 * full3[:refs.onesided_len(nfft)]
+        c.compare('MultiTapering:recomputed-with-new-NW-and-k', psd2, ref3, 1e-10, f2, scale=float(np.max(ref3)) or 1.0,
+                  detail={'NW': NW2, 'k': k2, 'NFFT': nfft})
 
 
 def finish(c):
